@@ -239,7 +239,7 @@ def check_case(acc, case):
     mode = case["mode"]
     key = {"det": case["det"], "mode": mode}
     try:
-        with core.case_timer():
+        with core.case_timer(case.get("timeout", core.CASE_TIMEOUT_S)):
             if mode == "table":
                 n, p, msl, M = case["n"], case["p"], case["msl"], case["M"]
                 ctabs = [table_array(n, msl, M, v) for v in case["ctab"]]
@@ -496,8 +496,17 @@ def long_configs(tier):
     return out
 
 
+def xlong_configs(tier):
+    """Very long single cases (block boundaries of a chunked implementation fall inside the data): (det, n, msl, M, pen)."""
+    out = []
+    for n in (900,) if tier == "quick" else (900, 2500):
+        out.append(("CAPA", n, 3, 60, ("scale", 1.0, 1.0)))
+        out.append(("MVCAPA", n, 2, 45, ("callable", 20.0, (2,), 25.0, (1,))))
+    return out
+
+
 def shards(tier, seed):
-    sh = [("long", tier, i) for i in range(len(long_configs(tier)))]
+    sh = [("xlong", tier, i) for i in range(len(xlong_configs(tier)))] + [("long", tier, i) for i in range(len(long_configs(tier)))]
     for ci, cfg in enumerate(table_configs(tier)):
         det, n, p, msl, M, fam, pvfam, pens = cfg
         nt = len(family_tables(n, msl, M, fam))
@@ -526,6 +535,17 @@ def bounds(tier, seed):
 
 def run_shard(shard):
     acc = core.Acc()
+    if shard[0] == "xlong":
+        det, n, msl, M, pen = xlong_configs(shard[1])[shard[2]]
+        x = [[v] for v in util.very_long_series(n, 211)]
+        for t in range(100, n, 97):  # anomalies: short level excursions and isolated spikes
+            if (t // 97) % 3 == 0:
+                x[t][0] += 9.0
+            else:
+                for u in range(t, min(n, t + 5 + (t // 97) % 20)):
+                    x[u][0] += 4.0
+        check_case(acc, {"mode": "data", "det": det, "x": x, "csav": "L2Saving", "psav": "L2Saving", "msl": msl, "M": M, "pen": list(pen), "timeout": 900})
+        return acc
     if shard[0] == "long":
         det, n, msl, M, pen = long_configs(shard[1])[shard[2]]
         for cps, xs in util.structured_series(n, 2, (0.0, 3.0)):
